@@ -69,18 +69,7 @@ def module_constants(tree):
 ORDER = {"big": "Big", "little": "Little"}
 
 
-def translate_encode(tree, env):
-    fn = find_function(tree, "_encode_message")
-    if [a.arg for a in fn.args.args] != ["call_id", "body"]:
-        raise TranslatorError("_encode_message signature changed")
-    body = body_without_docstring(fn)
-    if len(body) != 3:
-        raise TranslatorError("_encode_message: expected three statements")
-    if _u(body[0]) != "size = 0 if body is None else len(body)":
-        raise TranslatorError(f"_encode_message: size rule not recognised: {_u(body[0])}")
-    st = body[1]
-    if not (isinstance(st, ast.Assign) and _u(st.targets[0]) == "header"):
-        raise TranslatorError("_encode_message: header assignment not found")
+def _header_layout(value, env):
     parts = []
 
     def flat(e):
@@ -89,7 +78,7 @@ def translate_encode(tree, env):
             flat(e.right)
         else:
             parts.append(e)
-    flat(st.value)
+    flat(value)
     layout = []
     for p in parts:
         m = re.fullmatch(r"(call_id|size)\.to_bytes\((.+), '(\w+)'\)", _u(p))
@@ -99,9 +88,74 @@ def translate_encode(tree, env):
             raise TranslatorError(f"unknown byte order {m.group(3)}")
         width = _eval_int(p.args[0], env)
         layout.append(("FId" if m.group(1) == "call_id" else "FSize", width, ORDER[m.group(3)]))
-    if _u(body[2]) != "return header if body is None else header + body":
-        raise TranslatorError(f"_encode_message: return not recognised: {_u(body[2])}")
     return layout
+
+
+def _encode_path(stmts, body_is_none, env):
+    """Run the statements of _encode_message symbolically for one of the two cases `body is None` /
+    `body is not None`. Statement-level: assignments to the locals `size` and `header`, `if` statements and
+    conditional expressions whose test is `body is None` / `body is not None` (both are decided by the case),
+    `return`. Returns (size expression, header layout, returned expression) as the path computes them."""
+    def decide(test):
+        t = _u(test)
+        if t == "body is None":
+            return body_is_none
+        if t == "body is not None":
+            return not body_is_none
+        raise TranslatorError(f"_encode_message: test not recognised: {t}")
+
+    def pick(e):
+        while isinstance(e, ast.IfExp):
+            e = e.body if decide(e.test) else e.orelse
+        return e
+
+    state = {"size": None, "header": None}
+
+    def run(block):
+        for st in block:
+            if isinstance(st, ast.Assign) and len(st.targets) == 1 and isinstance(st.targets[0], ast.Name) \
+                    and st.targets[0].id in state:
+                name, val = st.targets[0].id, pick(st.value)
+                if name == "size":
+                    if state["header"] is not None:
+                        raise TranslatorError("_encode_message: size is assigned after the header was built")
+                    state["size"] = _u(val)
+                else:
+                    if state["size"] is None:
+                        raise TranslatorError("_encode_message: header built before size is known")
+                    state["header"] = _header_layout(val, env)
+            elif isinstance(st, ast.If):
+                r = run(st.body if decide(st.test) else st.orelse)
+                if r is not None:
+                    return r
+            elif isinstance(st, ast.Return) and st.value is not None:
+                return _u(pick(st.value))
+            else:
+                raise TranslatorError(f"_encode_message: statement not recognised: {_u(st)[:80]}")
+        return None
+
+    ret = run(stmts)
+    if ret is None or state["header"] is None:
+        raise TranslatorError("_encode_message: a path does not return the message")
+    return state["size"], state["header"], ret
+
+
+def translate_encode(tree, env):
+    """size = 0 if body is None else len(body); header = <fields>; return header [+ body], in whatever mixture of
+    conditional expressions and if-statements on `body is None` the source uses (both cases are executed)."""
+    fn = find_function(tree, "_encode_message")
+    if [a.arg for a in fn.args.args] != ["call_id", "body"]:
+        raise TranslatorError("_encode_message signature changed")
+    body = body_without_docstring(fn)
+    size0, layout0, ret0 = _encode_path(body, True, env)
+    size1, layout1, ret1 = _encode_path(body, False, env)
+    if size0 != "0" or size1 != "len(body)":
+        raise TranslatorError(f"_encode_message: size rule not recognised: {size0} / {size1}")
+    if layout0 != layout1:
+        raise TranslatorError("_encode_message: the header layout depends on the body")
+    if ret0 != "header" or ret1 != "header + body":
+        raise TranslatorError(f"_encode_message: return not recognised: {ret0} / {ret1}")
+    return layout0
 
 
 def translate_decode(tree, env):
